@@ -295,8 +295,21 @@ def split_result(r):
     return "|".join(parts[:3]), "|".join(parts[3:])
 
 
-def judge(wf, spec, model, io):
+def drop_foreign(io):
+    """the cached tables of OTHER line contexts (entries the harness marks `?<key>`: the private blocks of script-implemented SDK
+    commands that ran on the same state) are not the program's: dropped before the comparison"""
+    parts = io.split("|")
+    for j in range(3, len(parts)):
+        if ":" in parts[j]:
+            name, rest = parts[j].split(":", 1)
+            parts[j] = name + ":" + ",".join(x for x in rest.split(",") if x and not x.startswith("?"))
+    return "|".join(parts)
+
+
+def judge(wf, spec, model, io, sdkcalls=False):
     """None when the case agrees, else a description of the disagreement"""
+    if sdkcalls and io.startswith("OK"):
+        io = drop_foreign(io)
     if wf != "T":
         return "generated program is outside the theorem's domain (wf = F)"
     if spec.startswith("OK") and model.startswith("OK"):
@@ -464,6 +477,20 @@ def run(ck):
                         continue
                     skel_count["cases"] += 1
                     yield ("skeleton", blk, ["c", sc])
+        # 2b. "sdkcall": k empty lines, then one construct on line k.  For the implementation the empty lines are written as
+        # calls of an SDK command that is itself a script with for / if / while on its own lines 2, 3 and 11 (join_path), run on the
+        # SAME Context.state under another line context: the block tables of the user's construct are the user's, whatever ran
+        # before on an equal line number (seed C04-w5-m2: a last-block memo that ignored the line context)
+        for k_ in range(0, 15):
+            pad = [("c", ("0",))] * k_
+            for sc in ("T", "F", "TF", "FT", "TTF", "FF"):
+                yield ("sdkcall", pad + [("i", T["if"][0], ("N", "c"), [("c", ("E", "a", []))],
+                                          [("ei", T["elseif"][0], ("N", "c"), [("c", ("E", "b", []))]), ("el", T["else"][0], [("c", ("E", "d", []))])], "end"),
+                                         ("c", ("E", "z", []))], ["c", sc])
+                yield ("sdkcall", pad + [("i", T["if"][0], ("N", "c"), [("c", ("E", "a", []))], [], "end"), ("c", ("E", "z", []))], ["c", sc])
+                yield ("sdkcall", pad + [("w", T["while"][0], ("N", "c"), [("c", ("E", "a", []))], "end"), ("c", ("E", "z", []))], ["c", sc])
+            yield ("sdkcall", [("c", ("A", "h", ["p", "q"]))] + pad + [("f", T["for"][0], "v", "h", [("c", ("E", "a", ["v"]))], "end"),
+                                                                       ("c", ("E", "z", []))], [])
         # 3. random programs
         for _ in range(60000 if thorough else 15000):
             tree, init = g.program(60, rng.choice([1, 2, 3, 4, 5, 5]))
@@ -478,13 +505,18 @@ def run(ck):
     def evaluate(cases):
         lines = [case_line(t, i) for (_, t, i) in cases]
         m_out = ck.model(lines, timeout=900)
-        impl_lines, idx = [], []
+        impl_lines, idx, sdk_flags = [], [], []
         for k, o in enumerate(m_out):
             f = o.split("\t")
             if len(f) != 4:
                 ck.broken.append("model driver: bad output %r on case %d" % (o[:80], k))
                 continue
             idx.append(k)
+            sdk_flags.append(False)
+            if cases[k][0] == "sdkcall" or (cases[k][0] == "random" and k % 3 == 0):
+                sdk_flags[-1] = True
+                # empty lines written as calls of a script-implemented SDK command without output variable (no visible effect)
+                f[0] = enc_list([l if l != "" else "join_path a b" for l in dec_list(f[0])])
             impl_lines.append("R\t%s\t%s" % (f[0], enc_list(cases[k][2])))
         i_out = ck.impl(impl_lines, timeout=900)
         # a HANG verdict (CPU-time fuse of the harness) is confirmed with a five times longer fuse
@@ -528,8 +560,8 @@ def run(ck):
                 dist["repetition"][key] = dist["repetition"].get(key, 0) + 1
                 ncache = sum(1 for part in model.split("|")[3:6] for x in part.split(":", 1)[1].split(",") if x)
                 dist["cached_blocks"][min(ncache, 10)] = dist["cached_blocks"].get(min(ncache, 10), 0) + 1
-            bad = judge(wf, spec, model, io)
-            if bad and len(ck.violations) < 5 and kind in ("random", "skeleton"):
+            bad = judge(wf, spec, model, io, sdk_flags[pos])
+            if bad and len(ck.violations) < 5 and kind in ("random", "skeleton") and not sdk_flags[pos]:
                 # shrink: report the smallest program found that still disagrees
                 small, res = shrink(ck, tree, init)
                 if res:
